@@ -206,7 +206,7 @@ func (c *Ctx) RuleUpd() []*Result {
 			})
 		}
 	}
-	return []*Result{validator, api, guard, found, version}
+	return []*Result{validator, api, guard, found, version, c.RuleBuildVars()}
 }
 
 // configFields reads the fields of a struct literal passed by value.
